@@ -363,6 +363,11 @@ class World:
         self.node = node
         self.si = node.get_storage_index()
         self.order = [s.get_nickname() for s in g.broker.get_servers_for_psi(self.si)]
+        # an unrecorded prehistory: the file is overwritten `prehistory` times with every server up (nothing of those
+        # versions stays on disk), so that the recorded versions carry sequence numbers around a decimal digit boundary
+        for _ in range(getattr(self, "prehistory", 0)):
+            st, r = self.run(node.overwrite(MutableData(content)))
+            assert st == "ok", r
         self.register_published(content)
 
     def register_published(self, content):
@@ -652,9 +657,10 @@ def base_layout(w, vid, rng, servers=None):
         w.put(servers[sh % len(servers)], sh, vid)
 
 
-def new_world(g, fg, rng, nver, fmt=None, k=2, n=3):
+def new_world(g, fg, rng, nver, fmt=None, k=2, n=3, prehistory=0):
     fmt = fmt or rng.choice(["SDMF", "MDMF"])
     w = World(g, fg, fmt, rng, k, n)
+    w.prehistory = prehistory
     same_len = rng.random() < 0.5
     ln = rng.randint(1, 28)
     w.create(w.new_content(ln, ln) if same_len else w.new_content())
@@ -808,7 +814,11 @@ def scen_c10(g, fg, rng, idx, thorough):
 
 def scen_c11(g, fg, rng, idx, thorough):
     """publish history with unavailable servers and servers replaying older shares, then reads"""
-    w = new_world(g, fg, rng, 1)
+    # every fourth history starts at sequence number 8 or 9 (thorough: also 98, 99): the versions that follow straddle 9 | 10
+    pre = 0
+    if idx % 4 == 3:
+        pre = random.Random(idx).choice([7, 8, 8] + ([97, 98] if thorough else []))
+    w = new_world(g, fg, rng, 1, prehistory=pre)
     npub = rng.randint(2, 6 if thorough else 5)
     snaps = [dict(w.disk())]        # disk images after each publish
     w.rescan()
